@@ -132,7 +132,13 @@ def make_chain(rnd, naming):
                 inner = dict(env)
                 inner[w] = s[1]
                 tgt = g.pack_shape(inner, 1)
-                cur = call("Select", cur, lam([v], call("First", call("Select", e, lam([w], g.expr(inner, tgt, 2))))))
+                packed_seq = call("Select", e, lam([w], g.expr(inner, tgt, 2)))
+                if rnd.random() < 0.3:
+                    # ... with a filter between the packaging Select and the First (First does not sit on the Select itself)
+                    z = g.fresh(inner)
+                    packed_seq = call("Where", packed_seq, lam([z], ast.Compare(left=C(1), ops=[ast.Lt()], comparators=[C(2)])))
+                    g.feat.add("packaged-through-First-of-Where")
+                cur = call("Select", cur, lam([v], call("First", packed_seq)))
                 last_pack_stage = i
                 shape = tgt
                 g.feat.add("packaged-through-First")
@@ -203,6 +209,29 @@ def scan_packaged_final(out):
     return bad
 
 
+def parameter_layouts(rnd, q):
+    """stage lambdas as python lets one write them: a further parameter with a default the operator never fills - positional-only,
+    ordinary, keyword-only - next to the stage variable (the chain means the same)"""
+    n = 0
+    node = q
+    while isinstance(node, ast.Call) and isinstance(node.func, ast.Name) and node.func.id in ("Select", "Where", "SelectMany") and len(node.args) == 2:
+        la = node.args[1]
+        if isinstance(la, ast.Lambda) and len(la.args.args) == 1 and not la.args.posonlyargs and rnd.random() < 0.4:
+            form = rnd.randrange(4)
+            extra, dflt = ast.arg(arg="scale_"), C(rnd.choice([2, 1.5, 0]))
+            if form == 0:
+                la.args.posonlyargs, la.args.args, la.args.defaults = la.args.args + [extra], [], [dflt]
+            elif form == 1:
+                la.args.posonlyargs, la.args.args, la.args.defaults = la.args.args, [extra], [dflt]
+            elif form == 2:
+                la.args.args, la.args.defaults = la.args.args + [extra], [dflt]
+            else:
+                la.args.kwonlyargs, la.args.kw_defaults = [extra], [dflt]
+            n += 1
+        node = node.args[0]
+    return n
+
+
 def judge(ctx, q, final_packaged, gap_ok, info):
     from func_adl.ast.function_simplifier import simplify_chained_calls
 
@@ -249,6 +278,14 @@ DIRECTED = [
     ("Select(Select(Where(EventDataset(), lambda e: Count(e.jets) > 0), lambda e: First(Select(e.jets, lambda j: {'p': j.m, 'q': j.eta}))), lambda d: d.p())", False),
     ("Select(Select(Where(EventDataset(), lambda e: Count(e.jets) > 0), lambda e: First(Select(e.jets, lambda j: {'p': j.m, 'q': j.eta}))), lambda d: d.p(1) + d.q)", False),
     ("Select(Select(Where(EventDataset(), lambda e: Count(e.jets) > 0), lambda e: (First(Select(e.jets, lambda j: {'p': j.m, 'q': j.eta})), e.met)), lambda t: t[0].p() + t[1])", False),
+    # a packaged dictionary reached through First() of something else than the packaging Select itself
+    ("Select(Select(Where(EventDataset(), lambda e: Count(e.jets) > 0), lambda e: First(SelectMany(e.jets, lambda j: Select(j.trks, lambda k: {'trk': k, 'jet': j})))), lambda d: d.trk.pt + d.jet.pt)", False),
+    ("Select(Where(EventDataset(), lambda e: Count(e.jets) > 0), lambda e: First(SelectMany(e.jets, lambda j: Select(j.trks, lambda k: {'trk': k, 'jet': j}))).trk.pt)", False),
+    ("Select(Where(EventDataset(), lambda e: Count(e.jets) > 0), lambda e: First(Where(Select(e.jets, lambda j: {'j': j, 'm': e.met}), lambda d: d.m > 1)).j.pt)", False),
+    ("Select(Where(EventDataset(), lambda e: Count(e.jets) > 0), lambda e: First(Where(Select(e.jets, lambda j: (j, e.met)), lambda d: d[1] > 1))[0].pt)", False),
+    # stage lambdas with a defaulted parameter the operator never fills
+    ("Select(Select(EventDataset(), lambda e, scale=2, /: (e.jets, e.met * scale)), lambda t: Count(t[0]) + t[1])", False),
+    ("Select(Select(EventDataset(), lambda e, /, scale=2: {'j': e.jets, 'm': e.met * scale}), lambda t, *, k=1: Count(t.j) + t.m + k)", False),
     # constant indices counted from the end
     ("Select(Select(EventDataset(), lambda e: (e.x, e.y)), lambda t: t[-1] + t[-2])", False),
     ("Select(Where(Select(EventDataset(), lambda e: [e.x, e.jets]), lambda t: t[-2] > 1), lambda t: Count(t[-1]))", False),
@@ -276,6 +313,8 @@ def shard_main(ctx):
             ctx.count("skipped:input-too-large")
             continue
         ctx.count("naming:" + naming)
+        if rnd.random() < 0.2:
+            ctx.count("stage-lambdas-given-a-defaulted-parameter", parameter_layouts(rnd, q))
         try:
             with case_timeout(4.0):
                 judge(ctx, q, fp, gap_ok and packed, {"naming": naming, "stages": kinds})
